@@ -425,12 +425,14 @@ class ErrorRanges:
         self._lengths = self._compute_lengths()
 
     def _compute_lengths(self) -> List[int]:
-        lengths = [
-            int(errors / self.error_rate) - 1
-            for errors in range(1, int(self.error_rate * self.length) + 1)
-        ]
-        if not lengths or lengths[-1] < self.length:
-            lengths.append(self.length)
+        lengths = []
+        errors = 0
+        for length in range(1, self.length + 1):
+            # Same arithmetic as the aligner: int(error_rate * length) errors are allowed
+            while int(self.error_rate * length) > errors:
+                lengths.append(length - 1)
+                errors += 1
+        lengths.append(self.length)
         return lengths
 
     def __repr__(self):
